@@ -44,7 +44,8 @@ func c01AdvProp(t *testing.T, k *verifkit.Kit) func(c c17Case) error {
 				ifi := &cfg.Interfaces[i]
 				p := time.Duration(-1)
 				for j := range ifi.Plugins {
-					ifi.Plugins[j] = &vkPlug{Plugin: ifi.Plugins[j], st: &st, idx: i, mu: &mu, prepared: &p, w: w.now}
+					ifi.Plugins[j] = &vkPlug{Plugin: ifi.Plugins[j], st: &st, idx: i, mu: &mu, prepared: &p, w: w.now,
+						cur: func() sysState { s, _ := c17StateAt(c, w.now()); return s }}
 				}
 				w.fwd[ifi.Name] = st.Fwd
 			}
@@ -179,7 +180,11 @@ func c01AdvProp(t *testing.T, k *verifkit.Kit) func(c c17Case) error {
 			if amb {
 				continue
 			}
-			s2 := stFor(st, idxOf[ri.Name])
+			base, amb2 := c17StateAt(c, x.Start)
+			if amb2 {
+				continue
+			}
+			s2 := stFor(base, idxOf[ri.Name])
 			s2.MAC = vkMACFor(ri.Name)
 			s2.Fwd, s2.NowNS = f, int64(x.Start)
 			want, wantErr := expectRA(ri, s2, epoch)
